@@ -61,6 +61,16 @@ def make_workload(seed, i):
                                                            ("triple", M.Named("SteerTriple", tuple(prims)), gu.chance(0.5)),
                                                            ("envelope", M.Named("SteerEnvelope", (prims[1], prims[2])), gu.chance(0.5))]))
         desc["generic_unions"] = True
+    hg = rng.fork("hugeschema")
+    if hg.chance(0.12):
+        # a schema text beyond 64 KiB (generated files carry it on one line): an enumeration with a few thousand symbols that
+        # every protocol uses - lines longer than any reasonable read buffer in the files that are compared and rewritten
+        fn = sorted(pkg.files)[0]
+        pkg.files[fn].append(M.Enum("AaaHugeCodes", "uint16", [("code%04d" % k_, k_) for k_ in range(hg.randint(2400, 3200))]))
+        for d_ in pkg.defs():
+            if isinstance(d_, M.Protocol):
+                d_.steps.append(("steerhuge", M.Named("AaaHugeCodes"), hg.chance(0.5)))
+        desc["schema_text_beyond_64KiB"] = True
     cs = rng.fork("caseonly")
     if cs.chance(0.3):
         # names that differ in letter case only (XMLBlob / XmlBlob): two definitions, two files per file-per-type back end
@@ -453,6 +463,7 @@ def main():
             totals["cases_also_run_with_verbose"] += stats.get("verbose_run", 0)
             totals["cases_with_config_overrides"] += 1 if d.get("args") else 0
             totals["cases_with_several_unknown_config_keys"] += 1 if d.get("unknown_config_keys") else 0
+            totals["cases_with_a_schema_text_beyond_64KiB"] = totals.get("cases_with_a_schema_text_beyond_64KiB", 0) + (1 if d.get("schema_text_beyond_64KiB") else 0)
             totals["cases_in_which_the_tool_ran_several_goroutines"] += 1 if stats.get("goroutines", 0) > 1 else 0
             totals["crash_points"] += stats.get("crash_points", 0)
             for key in ("crash_left_torn_file", "crash_left_same_size_torn_file", "dirty_starts", "dirty_same_size_stale_file"):
